@@ -10,7 +10,9 @@ Arguments IOk {A} a. Arguments IErr {A}. Arguments IPanic {A}.
 Inductive c14case :=
 (* mapfile `!difficulty_flags` lines applied to the built-in definitions; then for every mask 0..255 in
    order: mask_to_diff_label and parse_diff_string of that label *)
-| KLabels (ops : list (Z * list Z)) (r : ires (list (ires (list Z * ires Z))))
+| KLabels (ops : list (Z * list Z)) (r : ires (list Z * list Z))
+   (* flat encoding, cheap to type-check: the 256 labels, each terminated by 0; the 256 parse results
+      (mask, or -1 diagnostic, -2 panic in parse_diff_string, -3 panic in mask_to_diff_label) *)
 (* parse_diff_string of an arbitrary label string *)
 | KParse (ops : list (Z * list Z)) (s : list Z) (r : ires Z)
 (* `{"label"}: ins(args);` compiled: the emitted copies (difficulty mask, argument values) *)
@@ -41,8 +43,16 @@ Definition defs_of (ops : list (Z * list Z)) : outcome flagdefs :=
 Definition label_entry (fd : flagdefs) (m : N) : outcome (list N * outcome N) :=
   do s <- mask_to_label fd m; Ok (s, parse_label fd s).
 
-Definition entry_eqb (a : outcome (list N * outcome N)) (b : ires (list Z * ires Z)) : bool :=
-  agree (fun x y => list_eqb neqz (fst x) (fst y) && agree neqz (snd x) (snd y)) a b.
+Definition entry_label (a : outcome (list N * outcome N)) : list Z :=
+  match a with Ok (s, _) => map Z.of_N s ++ [0%Z] | _ => [0%Z] end.
+Definition entry_result (a : outcome (list N * outcome N)) : Z :=
+  match a with
+  | Ok (_, Ok m) => Z.of_N m
+  | Ok (_, Err _) => (-1)%Z
+  | Ok (_, Panic _) => (-2)%Z
+  | Panic _ => (-3)%Z
+  | _ => (-9)%Z
+  end.
 
 Definition all_masks256 : list N := map N.of_nat (seq 0 256).
 
@@ -51,7 +61,10 @@ Definition copy_eqb (a : N * list Z) (b : Z * list Z) : bool := neqz (fst a) (fs
 Definition model_of (c : c14case) : bool :=
   match c with
   | KLabels ops r =>
-      agree (fun fd obs => list_eqb entry_eqb (map (label_entry fd) all_masks256) obs) (defs_of ops) r
+      agree (fun fd obs =>
+               let es := map (label_entry fd) all_masks256 in
+               list_eqb Z.eqb (flat_map entry_label es) (fst obs) && list_eqb Z.eqb (map entry_result es) (snd obs))
+            (defs_of ops) r
   | KParse ops s r => agree neqz (do fd <- defs_of ops; parse_label fd (chars s)) r
   | KElab ops label args r =>
       agree (list_eqb copy_eqb)
